@@ -18,25 +18,27 @@ def hash_groups():
       what='bucket selection with an arbitrary caller hash: result inside [0,count) of the array or abort',
       covers=['end', 'abort'])
     g('hash.rehash_n', ['C19', 'C03'], 'h_rehash_n', '__cstl_hash_rehash', replace=['cstl_clean_bucket'],
-      what='sweep: <= n dirty buckets cleaned, progress >= n or completion, completion installs the pending geometry, sweep invariant')
+      what='sweep: <= n dirty buckets cleaned, progress >= n or completion, completion installs the pending geometry, sweep invariant',
+      shards=8)
     g('hash.rehash', ['C19', 'C03'], 'h_rehash', 'cstl_hash_rehash', replace=['__cstl_hash_rehash'],
       what='forced completion of a pending rehash; no-op otherwise')
     g('hash.get_bucket', ['C19', 'C03', 'C17'], 'h_get_bucket', 'cstl_hash_get_bucket',
       replace=['__cstl_hash_get_bucket', 'cstl_clean_bucket', '__cstl_hash_rehash'],
       what='keyed access: <= 3 dirty buckets relocated, sweep advances or completes, one hash consultation when idle, bucket in range')
     g('hash.set_capacity', ['C16', 'C03'], 'h_set_capacity', '__cstl_hash_set_capacity',
-      what='bucket array reallocation lands completely or changes nothing (allocation may fail)')
+      what='bucket array reallocation lands completely or changes nothing (allocation may fail)', shards=4)
     g('hash.set_capacity_init', ['C16'], 'h_set_capacity', '__cstl_hash_set_capacity',
       what='first allocation of the bucket array lands completely or changes nothing')
     g('hash.resize', ['C19', 'C16', 'C03'], 'h_resize', 'cstl_hash_resize',
       replace=['cstl_hash_rehash'],
-      what='resize request in every table state incl. rehash pending: lands (effective geometry = request) or, on allocation failure, changes nothing')
+      what='resize request in every table state incl. rehash pending: lands (effective geometry = request) or, on allocation failure, changes nothing',
+      shards=8)
     g('hash.resize_init', ['C19', 'C16', 'C03'], 'h_resize', 'cstl_hash_resize',
       replace=['cstl_hash_rehash'],
       what='first resize of a freshly initialised table')
     g('hash.shrink', ['C16', 'C03'], 'h_shrink', 'cstl_hash_shrink_to_fit',
       replace=['cstl_hash_rehash'],
-      what='shrink_to_fit keeps the effective geometry, array size follows or nothing changes')
+      what='shrink_to_fit keeps the effective geometry, array size follows or nothing changes', shards=4)
     g('hash.foreach_walk', ['C04'], 'h_foreach_walk', '__cstl_hash_foreach', replace=['cstl_hash_bucket_foreach'],
       what='bucket walk hands bucket k to the k-th chain walk for every bucket that can hold an element, stops at first non-zero')
     g('hash.foreach', ['C04'], 'h_foreach', 'cstl_hash_foreach', replace=['cstl_hash_rehash', '__cstl_hash_foreach'],
@@ -50,7 +52,42 @@ def hash_groups():
     return G
 
 
+def vector_groups():
+    S = 'spec/s_vector.c'
+    src = [('vector.c', {'loops': 'spec/loops/vector.lc'})]
+    G = []
+    quick_sizes = (1, 4, 12)
+    all_sizes = (1, 2, 3, 4, 8, 12, 16, 64)
+    for esz in all_sizes:
+        tier = 'quick' if esz in quick_sizes else 'thorough'
+        for fam in ('', 'empty'):
+            d = ['-DVF_ESZ=%d' % esz] + (['-DVF_VEC_EMPTY'] if fam else [])
+            sfx = '.e%d%s' % (esz, '.empty' if fam else '')
+
+            def g(name, props, harness, enforce, what, **kw):
+                G.append(Group('vector.' + name + sfx, props, 'P', S, harness, enforce=enforce, sources=src,
+                               defines=d, what=what + ' [element size %d, %s]' % (esz, 'empty vector' if fam else 'vector with storage'),
+                               tier=kw.pop('tier', tier), replay=True, **kw))
+            g('set_capacity', ['C09', 'C16'], 'h_set_capacity', 'cstl_vector_set_capacity',
+              'reallocation lands completely (live buffer of >= (cap+1)*size bytes in 128-bit arithmetic, bytes in range kept) or changes nothing',
+              shards=1 if fam else 4)
+            g('reserve', ['C09', 'C16'], 'h_reserve', 'cstl_vector_reserve',
+              'reserve: never shrinks, quiet no-op when growth is impossible, wf kept', shards=1 if fam else 4)
+            g('resize', ['C09', 'C16'], 'h_resize', 'cstl_vector_resize',
+              'resize: size == request or abort; ctor once per entering element ascending, dtor once per leaving element descending',
+              covers=['end', 'abort'], shards=1 if fam else 6)
+            if not fam:
+                g('shrink', ['C09', 'C16'], 'h_shrink', 'cstl_vector_shrink_to_fit',
+                  'shrink_to_fit: cap == count or unchanged, wf kept', shards=4)
+                g('at', ['C09'], 'h_at', 'cstl_vector_at_const',
+                  'at: aborts iff i >= size, else address of element i inside the allocation', covers=['end', 'abort'])
+                g('clear', ['C09', 'C15'], 'h_clear', 'cstl_vector_clear',
+                  'clear: destructor once per element, storage freed, empty vector')
+    return G
+
+
 def all_groups():
     G = []
     G += hash_groups()
+    G += vector_groups()
     return G
